@@ -61,6 +61,11 @@ def make_handler(kind, calls):
         return C()
     if kind == "bound-method":
         return _Bound(calls).handle
+    if kind == "returns-true":
+        # the handler's return value has no documented meaning: "handled" flags, write() counts ... must change nothing
+        return lambda err: calls.append(err) or True
+    if kind == "returns-count":
+        return lambda err: (calls.append(err), len(calls))[1]
     return lambda err: calls.append(err)
 
 
@@ -206,7 +211,7 @@ def s_damage(draw, tier):
                 reps.append(streams.item("frame", base, repeat=True))
         k = draw(st.integers(0, len(items)))
         items = items[:k] + reps + items[k:]
-    return {"items": items, "mode": draw(st.sampled_from(["ignore", "log-handler", "log-nohandler", "raise"])), "handler": draw(st.sampled_from(["function", "collector", "bound-method"])), "handoff": draw(st.integers(0, 3)) == 0}
+    return {"items": items, "mode": draw(st.sampled_from(["ignore", "log-handler", "log-nohandler", "raise"])), "handler": draw(st.sampled_from(["function", "collector", "bound-method", "returns-true", "returns-count"])), "handoff": draw(st.integers(0, 3)) == 0}
 
 
 def e_tiny(tier, shard, nshards):
@@ -267,7 +272,7 @@ SUBS = [
         enum=e_all,
         examples=(250, 5000),
         rule="see property rule",
-        need={"reader-handed-to-another-thread": 1, "two-byte-payload-all-single-bit-damage": 4096, "re-broadcast-frame-damaged-twice": 1, "damaged-frame-with-sync-like-payload": 1, "long-run-of-damaged-frames": 1, "handler-collector": 1, "damage-in-crc": 1, "damage-in-payload": 1, "damage-in-straddle": 1, "adjacent-damaged": 1, "raise": 1, "log-nohandler": 1},
+        need={"reader-handed-to-another-thread": 1, "two-byte-payload-all-single-bit-damage": 4096, "re-broadcast-frame-damaged-twice": 1, "damaged-frame-with-sync-like-payload": 1, "long-run-of-damaged-frames": 1, "handler-collector": 1, "handler-returns-true": 1, "damage-in-crc": 1, "damage-in-payload": 1, "damage-in-straddle": 1, "adjacent-damaged": 1, "raise": 1, "log-nohandler": 1},
         sample=_sample,
     ),
 ]
